@@ -436,3 +436,72 @@ def ptr4(cfg):
             res.find(f, f.loc, 'qsbr_per_thread::%s() does not assert, before its first state change, that no qsbr_ptr created on this thread is alive (`active_ptrs.empty()`)' % nm, key='assert-active-ptrs:' + nm, config=cfg.name)
     res.floor('state-change entry points', 3)
     return res
+
+
+def ptr5(cfg):
+    """PTR-5: a move leaves the source null on every path"""
+    from .qsbr import control_conditions
+    res = RuleResult('PTR-5', 'moving from a qsbr_ptr (move constructor, move assignment) leaves the source holding nullptr on every path - the source is emptied by std::exchange(other.ptr, nullptr) or an assignment of nullptr; the only path that may skip it is a genuine self-move, guarded by an ADDRESS test `this == &other` (two distinct wrappers may hold the same address: comparing the wrapped values is not a self test) - otherwise the source stays a live registered wrapper and the registry no longer equals the set of live non-null wrappers')
+    for f in _qptr_fns(cfg):
+        if not f.blocks or not f.params or not (f.d.get('ctor') or f.short == 'operator='):
+            continue
+        p0 = f.params[0]
+        if '&&' not in (p0.get('t') or '') or 'qsbr_ptr<' not in (p0.get('t') or ''):
+            continue
+        res.count('move operations')
+        res.functions.add(f.sig)
+
+        def nulls_source(e):
+            def is_src_ptr(o):
+                x = f.strip_casts(o)
+                return isinstance(x, dict) and x.get('k') == 'member' and x.get('name') == 'ptr' and (f.ref_of(x['base']) or (None,))[0] == p0['did']
+            if e.get('k') == 'call' and e.get('name') == 'exchange' and len(e.get('args', [])) == 2:
+                z = f.strip_casts(e['args'][1])
+                return is_src_ptr(e['args'][0]) and isinstance(z, dict) and z.get('k') == 'nullptr'
+            if e.get('k') == 'binop' and e.get('op') == '=':
+                z = f.strip_casts(e['r'])
+                return is_src_ptr(e['l']) and isinstance(z, dict) and z.get('k') == 'nullptr'
+            return False
+
+        def walkhas(e):
+            hit = []
+            f.walk(e, lambda y: hit.append(1) if nulls_source(y) else None)
+            return bool(hit)
+        bad = []
+
+        def transfer(st, blk):
+            for e in blk['elems']:
+                if is_assert_elem(e):
+                    continue
+                if nulls_source(e) or (e.get('k') == 'init' and e.get('e') is not None and walkhas(e['e'])):
+                    st = True
+                if e.get('k') == 'return' and not st:
+                    bad.append((e, blk))
+            return st
+        inst = forward(f, False, transfer, None, lambda a, b: a and b, key=lambda s: s)
+        # constructors fall off the end
+        if f.d.get('ctor'):
+            ex = inst.get(f.exit)
+            if ex is False:
+                bad.append(({'loc': f.loc}, None))
+        real = []
+        for e, blk in bad:
+            # a path guarded by `this == &other`
+            guarded = False
+            if blk is not None:
+                bid = [b for b, bl in f.blocks.items() if bl is blk][0]
+                for c, val, cb in control_conditions(f, bid):
+                    if isinstance(c, dict) and c.get('k') == 'binop' and c.get('op') in ('==', '!='):
+                        l, r = f.strip_casts(c['l']), f.strip_casts(c['r'])
+                        for a, z in ((l, r), (r, l)):
+                            if isinstance(a, dict) and a.get('k') == 'this' and isinstance(z, dict) and z.get('k') == 'unop' and z.get('op') == '&' and (f.ref_of(z['sub']) or (None,))[0] == p0['did']:
+                                if (c['op'] == '==') == bool(val):
+                                    guarded = True
+            if not guarded:
+                real.append(e)
+        ok = not real
+        res.ob(ok, {'rule': 'PTR-5', 'function': sh(f.sig)[:100], 'site': fileline(f.loc), 'verdict': 'source nulled on every path' if ok else 'VIOLATION'})
+        if not ok:
+            res.find(f, real[0].get('loc'), '%s returns on a path on which the moved-from wrapper keeps its address (and, in assertion-enabled builds, its registration): after `dst = std::move(src)` between two distinct wrappers the source must hold nullptr' % ('the move constructor' if f.d.get('ctor') else 'the move assignment'), key='PTR-5:%s' % ('ctor' if f.d.get('ctor') else 'assign'), config=cfg.name)
+    res.floor('move operations', 2)
+    return res
